@@ -622,6 +622,7 @@ type dagCase struct {
 	Edges [][]int `json:"edges"` // Edges[i] = indices (> i) imported by package i
 	Roots []int   `json:"roots"` // load patterns, in this order
 	Std   bool    `json:"std"`   // package 0 also imports fmt and strings
+	Dir   int     `json:"linedir,omitempty"` // a //line directive ahead of every package's declaration: 1 names a file of its own beside the source, 2 a file in the next package's directory, 3 an absolute path elsewhere
 	out   string
 	have  bool
 }
@@ -638,6 +639,14 @@ func (c *dagCase) files(prefix string) map[string]string {
 		}
 		if c.Std && i == 0 {
 			b.WriteString("import _ \"fmt\"\nimport _ \"strings\"\n")
+		}
+		switch c.Dir {
+		case 1:
+			b.WriteString("\n//line gen.y:7\n")
+		case 2:
+			fmt.Fprintf(&b, "\n//line ../d%d/p.go:1\n", (i+1)%c.N)
+		case 3:
+			b.WriteString("\n//line /abs/elsewhere/gen.y:7\n")
 		}
 		fmt.Fprintf(&b, "\nvar V%d = %d\n", i, i)
 		m[fmt.Sprintf("d%d/p.go", i)] = b.String()
@@ -761,6 +770,16 @@ func (c *dagCase) eval(u *gengotypes.Universe, root, prefix string) {
 				if lp := u.LocateInPackage(p.Files()[0].Pos()); lp != p {
 					oracle = fmt.Sprintf("LocateInPackage(position in d%d) did not return that package", i)
 				}
+				// and for the position of the last declaration (behind the line directive when there is one)
+				if ds := p.Files()[0].Decls; oracle == "" && len(ds) > 0 {
+					if lp := u.LocateInPackage(ds[len(ds)-1].Pos()); lp != p {
+						got := "no package"
+						if lp != nil {
+							got = lp.Pkg().Path()
+						}
+						oracle = fmt.Sprintf("LocateInPackage(position of the declaration of V%d, in d%d/p.go) returned %s", i, i, got)
+					}
+				}
 			}
 			// the import table must be total
 			if oracle == "" && i < len(c.Edges) {
@@ -860,7 +879,7 @@ func (c *dagCase) Oracle(out string) string {
 func (c *dagCase) Shrinks() []Case {
 	var out []Case
 	if c.N > 1 {
-		n := &dagCase{N: c.N - 1, Std: c.Std}
+		n := &dagCase{N: c.N - 1, Std: c.Std, Dir: c.Dir}
 		for i := 0; i < c.N-1 && i < len(c.Edges); i++ {
 			var e []int
 			for _, j := range c.Edges[i] {
@@ -881,7 +900,7 @@ func (c *dagCase) Shrinks() []Case {
 	}
 	for i := range c.Edges {
 		for k := range c.Edges[i] {
-			n := &dagCase{N: c.N, Roots: c.Roots, Std: c.Std}
+			n := &dagCase{N: c.N, Roots: c.Roots, Std: c.Std, Dir: c.Dir}
 			for a := range c.Edges {
 				n.Edges = append(n.Edges, append([]int{}, c.Edges[a]...))
 			}
@@ -890,14 +909,20 @@ func (c *dagCase) Shrinks() []Case {
 		}
 	}
 	if len(c.Roots) > 1 {
-		out = append(out, &dagCase{N: c.N, Edges: c.Edges, Roots: c.Roots[:1], Std: c.Std})
+		out = append(out, &dagCase{N: c.N, Edges: c.Edges, Roots: c.Roots[:1], Std: c.Std, Dir: c.Dir})
 	}
 	if c.Std {
-		out = append(out, &dagCase{N: c.N, Edges: c.Edges, Roots: c.Roots})
+		out = append(out, &dagCase{N: c.N, Edges: c.Edges, Roots: c.Roots, Dir: c.Dir})
+	}
+	if c.Dir != 0 {
+		out = append(out, &dagCase{N: c.N, Edges: c.Edges, Roots: c.Roots, Std: c.Std})
 	}
 	return out
 }
 func (c *dagCase) Key() string {
+	if c.Dir != 0 {
+		return fmt.Sprintf("n=%d edges=%v roots=%v std=%v linedir=%d", c.N, c.Edges, c.Roots, c.Std, c.Dir)
+	}
 	return fmt.Sprintf("n=%d edges=%v roots=%v std=%v", c.N, c.Edges, c.Roots, c.Std)
 }
 func (c *dagCase) Classes() []string {
@@ -905,7 +930,7 @@ func (c *dagCase) Classes() []string {
 	for _, x := range c.Edges {
 		e += len(x)
 	}
-	return []string{fmt.Sprintf("packages:%d", c.N), fmt.Sprintf("edges:%d", min(e, 6)), fmt.Sprintf("roots:%d", len(c.Roots))}
+	return []string{fmt.Sprintf("packages:%d", c.N), fmt.Sprintf("edges:%d", min(e, 6)), fmt.Sprintf("roots:%d", len(c.Roots)), fmt.Sprintf("line-directive:%d", c.Dir)}
 }
 func (c *dagCase) Nontrivial() bool {
 	for _, x := range c.Edges {
@@ -931,6 +956,9 @@ func dagBatch(cases []Case) []string {
 
 func genDag(r *Rng) *dagCase {
 	c := &dagCase{N: 1 + r.Intn(6), Std: r.Chance(30)}
+	if r.Chance(30) {
+		c.Dir = 1 + r.Intn(3)
+	}
 	for i := 0; i < c.N; i++ {
 		var e []int
 		for j := i + 1; j < c.N; j++ {
@@ -1251,7 +1279,7 @@ func init() {
 			Name: "imports", Quick: 300, Thorough: 2000, New: func() Case { return &dagCase{} },
 			Gen:      func(r *Rng, i int) Case { return genDag(r) },
 			BatchRun: dagBatch, ShrinkBudget: 30, MaxShrinks: 4,
-			Rule: "acyclic import graphs of 1–6 module packages (some also importing std packages), loaded from 1–6 roots listed in either order, all graphs of a run in one types.Load; compared with the registration model: every import table entry resolved or not; oracle: Imports() total, non-nil and identical to Universe.Package(path), SourceDir() = directory of the files, LocateInPackage(position) = the package",
+			Rule: "acyclic import graphs of 1–6 module packages (some also importing std packages; in a third of the graphs every file has a `//line` directive ahead of its declaration, naming a file beside the source, a file in another package's directory, or an absolute path elsewhere), loaded from 1–6 roots listed in either order, all graphs of a run in one types.Load; compared with the registration model: every import table entry resolved or not; oracle: Imports() total, non-nil and identical to Universe.Package(path), SourceDir() = directory of the files, LocateInPackage(position) = the package, for the start of the file and for its last declaration",
 		},
 		{
 			Name: "closure", New: func() Case { return &closureCase{} },
